@@ -25,6 +25,8 @@ type Config struct {
 	StopSetters  int  // max number of stop-tag setters
 	DupDAG       bool
 	MinRulesNM   bool
+	BadSplit     bool // un-selected N-M calls get invalid splits too (only the result clause is decided for them)
+	DupNames     bool // selected calls sometimes get a duplicated name
 }
 
 func clauses(cs ...string) map[string]bool {
@@ -63,6 +65,18 @@ func GenCall(r *rand.Rand, method string, rs *RuleSet, cfg *Config) (c Call, ok 
 		}
 		c.N = 1 + r.Intn(tot-1)
 		c.M = tot - c.N
+		if cfg.BadSplit && r.Intn(5) == 0 {
+			switch r.Intn(4) {
+			case 0:
+				c.N = 0
+			case 1:
+				c.M = -1
+			case 2:
+				c.N, c.M = n, 1+r.Intn(3)
+			default:
+				c.N, c.M = 1+r.Intn(n), n
+			}
+		}
 	case MSelNSortMConc, MSelNConcMSort, MSelNConcMConc:
 		if n < 2 {
 			return c, false
@@ -110,6 +124,14 @@ func GenCall(r *rand.Rand, method string, rs *RuleSet, cfg *Config) (c Call, ok 
 	default:
 		if c.IsSelected() {
 			c.Names = GenNames(r, rs, cfg.UnknownNames)
+			if cfg.DupNames && len(c.Names) >= 1 && r.Intn(6) == 0 {
+				// a duplicated name (how often the duplicate runs is not defined; that no
+				// unselected rule runs is)
+				pos := r.Intn(len(c.Names) + 1)
+				dup := c.Names[r.Intn(len(c.Names))]
+				c.Names = append(c.Names[:pos], append([]string{dup}, c.Names[pos:]...)...)
+				c.DupNames = true
+			}
 		}
 	}
 	return c, true
